@@ -29,19 +29,21 @@ type c15acct struct {
 }
 
 type c15state struct {
-	rt         *rapid.T
-	w          *hlsim.World
-	admin      *hlsim.Conn
-	model      map[string]*c15acct
-	logins     []string // every login ever used (pool)
-	pws        []string // every password ever used
-	history    []string
-	edits      int
-	nt         bool
-	ev         *evid.Rec
-	addr       int
-	pendingOld []string // logins renamed away / deleted, not yet probed
-	refused    int
+	rt          *rapid.T
+	w           *hlsim.World
+	admin       *hlsim.Conn
+	model       map[string]*c15acct
+	logins      []string // every login ever used (pool)
+	pws         []string // every password ever used
+	history     []string
+	edits       int
+	nt          bool
+	ev          *evid.Rec
+	addr        int
+	pendingOld  []string // logins renamed away / deleted, not yet probed
+	refused     int
+	adminEdited bool
+	adminName   string
 }
 
 var c15LoginPool = []string{"alice", "bob", "Bob", "al ice", "a.b", "..a", "*", "x\ny", "caf\xe9", "\xff\xfe", "-", "~", "#1", "a b c", "guest2", strings.Repeat("L", 200), "q:r", "tab\there", "yaml: {x}", "'quoted'"}
@@ -84,6 +86,14 @@ func (s *c15state) usePw(p string) {
 		}
 	}
 	s.pws = append(s.pws, p)
+}
+
+// adminAcct: the administrator's own account, whose name the administrator may edit while logged in
+func (s *c15state) adminAcct() *c15acct {
+	if !s.adminEdited {
+		return &c15acct{name: "Admin", access: allAccess, pw: "adminpw"}
+	}
+	return &c15acct{name: s.adminName, access: allAccess, pw: "adminpw"}
 }
 
 func (s *c15state) genName(label string) string {
@@ -183,7 +193,7 @@ func (s *c15state) checkList(ctx string) {
 		got[l] = &c15acct{name: string(name), access: a}
 		hasPw[l] = pw
 	}
-	want := map[string]*c15acct{"admin": {name: "Admin", access: allAccess, pw: "adminpw"}}
+	want := map[string]*c15acct{"admin": s.adminAcct()}
 	for l, a := range s.model {
 		want[l] = a
 	}
@@ -220,7 +230,7 @@ type c15file struct {
 }
 
 func (s *c15state) checkDisk(ctx string) {
-	want := map[string]*c15acct{"admin": {name: "Admin", access: allAccess, pw: "adminpw"}}
+	want := map[string]*c15acct{"admin": s.adminAcct()}
 	for l, a := range s.model {
 		want[l] = a
 	}
@@ -479,6 +489,22 @@ func c15prop(ev *evid.Rec) func(rt *rapid.T) {
 					delete(s.model, l)
 					s.pendingOld = append(s.pendingOld, l)
 					s.edits++
+				},
+				"editOwnAccount": func(rt *rapid.T) {
+					// the administrator edits the account it is logged in with (the name only: privileges and password stay) and asks
+					// for it straight away: what administrators are shown is the account as it is now
+					s.rt = rt
+					name := s.genName("ownName")
+					rec("admin edits its own account: name %q", name)
+					aa := allAccess
+					s.mustReply(s.admin.Request(hlref.TranSetUser, fld(hlref.FUserLogin, hlref.Obfuscate([]byte("admin"))), fld(hlref.FUserName, []byte(name)), fld(hlref.FUserAccess, aa[:]), fld(hlref.FUserPassword, []byte{0})), "set-user admin")
+					s.adminEdited, s.adminName = true, name
+					s.edits++
+					r := s.admin.Request(hlref.TranGetUser, hlref.F(hlref.FUserLogin, []byte("admin")))
+					s.mustReply(r, "get-user admin")
+					if got, _ := r.Get(hlref.FUserName); string(got) != name {
+						rt.Fatalf("get-user for the administrator's own account shows the name %q after it was set to %q\nhistory: %s", got, name, strings.Join(s.history, " | "))
+					}
 				},
 				"getUser": func(rt *rapid.T) {
 					s.rt = rt
